@@ -245,7 +245,7 @@ def main(tier):
     ev.cov["rule"] = RULE
     ev.assumptions = ["values of mutable globals are handles shared with snapshots by design and are not compared; const globals' values are",
                       "re-adding an existing type name is neither required to fail nor to succeed; active binary modules are not exercised (no loadable module offline)"]
-    n = 480 if tier == "quick" else 30000
+    n = 480 if tier == "quick" else 4000
     failures = hyp.run("c15", ev, tier, n)
     confirmed = hyp.confirm("c15", failures, PID)
     for p, what in confirmed:
